@@ -449,3 +449,75 @@ Lemma run_scale l fl st : scale_inv st -> scale_inv (fst (fst (run l fl st))).
 Proof.
   apply run_scale_of_Forall. apply Forall_forall. intros c _. apply exec_scale_all.
 Qed.
+
+(* ------------------------------------------------------------------------------------------------ *)
+(** * Reading the plan: what each command contributes *)
+
+Lemma plan_cons_done c l fl ps fl' ps' ms :
+  plan1 c fl ps = (fl', ps', ms, Done) ->
+  plan (c :: l) fl ps = (pl_pst (plan l fl' ps'), ms ++ pl_moves (plan l fl' ps'), pl_status (plan l fl' ps')).
+Proof.
+  intros H. cbn [plan]. rewrite H. destruct (plan l fl' ps') as [[ps2 ms2] st2]. reflexivity.
+Qed.
+
+(* a one-letter move: the offset is count * unit vector * scale, divided by four and truncated toward zero;
+   it draws unless B came before, stays unless N came before, and the prefixes are used up *)
+Lemma plan_move d n l fl ps : in_range (-99999, 99999) n = true ->
+  plan (Move d n :: l) fl ps =
+  (pl_pst (plan l fresh ps),
+   mkmove false (Z.quot (p_scale ps * (n * fst (unit d))) 4, Z.quot (p_scale ps * (n * snd (unit d))) 4)
+          (fst fl) (snd fl) (p_attr ps) :: pl_moves (plan l fresh ps),
+   pl_status (plan l fresh ps)).
+Proof.
+  intros H. erewrite plan_cons_done by (cbn [plan1]; rewrite H; reflexivity). reflexivity.
+Qed.
+
+Lemma plan_mrel x y l fl ps : in_range (-9999, 9999) x && in_range (-9999, 9999) y = true ->
+  plan (MRel x y :: l) fl ps =
+  (pl_pst (plan l fresh ps),
+   mkmove false (Z.quot (p_scale ps * x) 4, Z.quot (p_scale ps * y) 4) (fst fl) (snd fl) (p_attr ps)
+     :: pl_moves (plan l fresh ps),
+   pl_status (plan l fresh ps)).
+Proof.
+  intros H. erewrite plan_cons_done by (cbn [plan1]; rewrite H; reflexivity). reflexivity.
+Qed.
+
+Lemma plan_mabs x y l fl ps : in_range (-9999, 9999) x && in_range (-9999, 9999) y = true ->
+  plan (MAbs x y :: l) fl ps =
+  (pl_pst (plan l fresh ps),
+   mkmove true (x, y) (fst fl) (snd fl) (p_attr ps) :: pl_moves (plan l fresh ps),
+   pl_status (plan l fresh ps)).
+Proof.
+  intros H. erewrite plan_cons_done by (cbn [plan1]; rewrite H; reflexivity). reflexivity.
+Qed.
+
+Lemma plan_prefix_B l fl ps : plan (PreB :: l) fl ps = plan l (false, snd fl) ps.
+Proof. erewrite plan_cons_done; [|reflexivity]. destruct (plan l (false, snd fl) ps) as [[a b] c]. reflexivity. Qed.
+
+Lemma plan_prefix_N l fl ps : plan (PreN :: l) fl ps = plan l (fst fl, true) ps.
+Proof. erewrite plan_cons_done; [|reflexivity]. destruct (plan l (fst fl, true) ps) as [[a b] c]. reflexivity. Qed.
+
+Lemma plan_scale n l fl ps : in_range (1, 255) n = true ->
+  plan (SetScale n :: l) fl ps = plan l fl (mkP n (p_attr ps)).
+Proof.
+  intros H. erewrite plan_cons_done; [|cbn [plan1]; rewrite H; reflexivity].
+  destruct (plan l fl (mkP n (p_attr ps))) as [[a b] c]. reflexivity.
+Qed.
+
+Lemma plan_colour n l fl ps : in_range (-99999, 99999) n = true ->
+  plan (SetColour n :: l) fl ps = plan l fl (mkP (p_scale ps) n).
+Proof.
+  intros H. erewrite plan_cons_done; [|cbn [plan1]; rewrite H; reflexivity].
+  destruct (plan l fl (mkP (p_scale ps) n)) as [[a b] c]. reflexivity.
+Qed.
+
+(* X: the substring runs with fresh prefixes of its own; the caller's pending prefixes survive it *)
+Lemma plan_sub name body l fl ps : pl_status (plan body fresh ps) = Done ->
+  plan (Sub name body :: l) fl ps =
+  (pl_pst (plan l fl (pl_pst (plan body fresh ps))),
+   pl_moves (plan body fresh ps) ++ pl_moves (plan l fl (pl_pst (plan body fresh ps))),
+   pl_status (plan l fl (pl_pst (plan body fresh ps)))).
+Proof.
+  intros H. destruct (plan body fresh ps) as [[a b] c] eqn:E. cbn in H. subst c.
+  erewrite plan_cons_done by (rewrite plan1_sub, E; reflexivity). reflexivity.
+Qed.
